@@ -362,13 +362,13 @@ func TestOpTrackerMix(t *testing.T) {
 	})
 }
 
-const ruleMetrics = "2-6 goroutines with drawn lists of operations (log a valid / expired metric, read LatestValid, PeerLatest, PeerMetricAll, Distribution, CheckPeers, CheckAll, RemovePeer, drain alerts) over 2 metric names x 3 peers on one real metrics.Store + Checker; each mix runs 3 times; oracle: race detector silent, no panic, all finish, LatestValid has one entry per peer; non-trivial = two goroutines touch the same name with a writer; distinct by mix"
+const ruleMetrics = "2-6 goroutines with drawn lists of operations (log a valid / expired metric, read LatestValid, PeerLatest, PeerMetricAll, Distribution, CheckPeers, CheckAll, RemovePeer, RemovePeerMetrics, AllMetrics, MetricNames, drain alerts) over 2 metric names x 3 peers on one real metrics.Store + Checker; each mix runs 3 times; oracle: race detector silent, no panic, all finish, LatestValid has one entry per peer; non-trivial = two goroutines touch the same name with a writer; distinct by mix"
 
 func TestMetricsMix(t *testing.T) {
 	leg := ev.L("metrics-mix", ruleMetrics)
 	rapid.Check(t, func(t *rapid.T) {
 		nw := rapid.IntRange(2, 6).Draw(t, "workers")
-		ops := drawOps(t, nw, 10)
+		ops := drawOps(t, nw, 12)
 		keys := make([][]int, nw)
 		for i := range keys {
 			keys[i] = rapid.SliceOfN(rapid.IntRange(0, 5), len(ops[i]), len(ops[i])).Draw(t, "keys")
@@ -420,6 +420,12 @@ func TestMetricsMix(t *testing.T) {
 							case <-checker.Alerts():
 							default:
 							}
+						case 10:
+							// what the checker does once a pair has been reported
+							store.RemovePeerMetrics(p, name)
+						case 11:
+							store.AllMetrics()
+							store.MetricNames()
 						}
 						yield(i)
 					}
@@ -427,7 +433,7 @@ func TestMetricsMix(t *testing.T) {
 			}
 			runAll(t, "metrics mix", workers)
 		}
-		leg.Case(fmt.Sprintf("ops=%v keys=%v", ops, keys), sharedWrite(ops, nil, []int{0, 1, 6, 7, 8}))
+		leg.Case(fmt.Sprintf("ops=%v keys=%v", ops, keys), sharedWrite(ops, nil, []int{0, 1, 6, 7, 8, 10}))
 	})
 }
 
@@ -528,7 +534,7 @@ func TestWindowMix(t *testing.T) {
 	})
 }
 
-const ruleAlerts = "a real Cluster with a harness-fed alert channel: one goroutine injects 1100-1300 uniquely stamped alerts (crossing the 1000-entry reset), 1-3 goroutines read Cluster.Alerts() in a loop, 0-2 goroutines pin/unpin/list; oracle: race detector silent, no panic, all finish, every returned list has no zero-valued entry, no duplicated stamp and is newest-first; non-trivial = always (readers and writer overlap); distinct by parameters"
+const ruleAlerts = "a real Cluster with 1-3 informers and a harness-fed alert channel: one goroutine injects 1100-1300 uniquely stamped alerts (crossing the 1000-entry reset), 1-3 goroutines read Cluster.Alerts() in a loop, 0-2 goroutines pin/unpin/list; oracle: race detector silent, no panic, all finish, every returned list has no zero-valued entry, no duplicated stamp and is newest-first, and the metric of every informer was published at least once; non-trivial = always (readers and writer overlap); distinct by parameters"
 
 func TestAlertsMix(t *testing.T) {
 	leg := ev.L("alerts-mix", ruleAlerts)
@@ -536,7 +542,8 @@ func TestAlertsMix(t *testing.T) {
 		readers := rapid.IntRange(1, 3).Draw(t, "readers")
 		pinners := rapid.IntRange(0, 2).Draw(t, "pinners")
 		total := rapid.IntRange(1100, 1300).Draw(t, "alerts")
-		f := fakes.NewCluster(fakes.ClusterOpts{Key: gen.PeerKeys[2], Mutate: func(cfg *ipfscluster.Config) { cfg.DisableRepinning = false }})
+		extras := []string{"extra-a", "extra-b"}[:rapid.IntRange(0, 2).Draw(t, "extraInformers")]
+		f := fakes.NewCluster(fakes.ClusterOpts{Key: gen.PeerKeys[2], ExtraInformers: extras, Mutate: func(cfg *ipfscluster.Config) { cfg.DisableRepinning = false }})
 		defer f.Close()
 		f.S.SetPeers([]peer.ID{f.ID})
 		var stop int32
@@ -588,7 +595,28 @@ func TestAlertsMix(t *testing.T) {
 			})
 		}
 		runAll(t, "alerts mix", workers)
-		leg.Case(fmt.Sprintf("readers=%d pinners=%d alerts=%d", readers, pinners, total), true)
+		// each informer has its own publishing loop, started with the peer
+		seen := map[string]int{}
+		names := append([]string{f.Inf.Name()}, extras...)
+		for deadline := time.Now().Add(5 * time.Second); ; time.Sleep(10 * time.Millisecond) {
+			pubs, _ := f.Mon.TakePublished()
+			for _, m := range pubs {
+				seen[m.Name]++
+			}
+			missing := ""
+			for _, name := range names {
+				if seen[name] == 0 {
+					missing = name
+				}
+			}
+			if missing == "" {
+				break
+			}
+			if time.Now().After(deadline) {
+				die("alerts mix", fmt.Sprintf("the peer runs %d informers but the metric of %q was never published (published so far: %v)", len(names), missing, seen))
+			}
+		}
+		leg.Case(fmt.Sprintf("readers=%d pinners=%d alerts=%d informers=%d", readers, pinners, total, 1+len(extras)), true)
 	})
 }
 
@@ -610,7 +638,7 @@ func TestShutdownMix(t *testing.T) {
 	caseN := 0
 	rapid.Check(t, func(t *rapid.T) {
 		caseN++
-		comp := rapid.SampledFrom([]string{"disk", "numpin", "crdt", "cluster", "cluster-boot", "tracker"}).Draw(t, "component")
+		comp := rapid.SampledFrom([]string{"disk", "numpin", "disk-slow-ipfs", "numpin-slow-ipfs", "crdt", "cluster", "cluster-boot", "tracker"}).Draw(t, "component")
 		users := rapid.IntRange(1, 3).Draw(t, "users")
 		after := rapid.IntRange(0, 30).Draw(t, "shutdownAfter")
 		var opCount int64
@@ -642,6 +670,46 @@ func TestShutdownMix(t *testing.T) {
 			inf.SetClient(client)
 			use = func(int) { inf.GetMetric(ctx) }
 			shutdown = func() { inf.Shutdown(ctx) }
+		case "disk-slow-ipfs", "numpin-slow-ipfs":
+			// the IPFS daemon does not answer: the informer's request is only
+			// abandoned when the peer cancels its context, which
+			// Cluster.Shutdown does after it has shut the informers down
+			gate := make(chan struct{})
+			hang := func(interface{}) (interface{}, error) {
+				select {
+				case <-gate:
+				case <-time.After(90 * time.Second):
+				}
+				return nil, fmt.Errorf("context canceled")
+			}
+			rec.Set("IPFSConnector.RepoStat", hang)
+			rec.Set("IPFSConnector.PinLs", hang)
+			var inf ipfscluster.Informer
+			if comp == "disk-slow-ipfs" {
+				cfg := &disk.Config{}
+				cfg.Default()
+				di, err := disk.NewInformer(cfg)
+				if err != nil {
+					t.Fatal(err)
+				}
+				inf = di
+			} else {
+				cfg := &numpin.Config{}
+				cfg.Default()
+				ni, err := numpin.NewInformer(cfg)
+				if err != nil {
+					t.Fatal(err)
+				}
+				inf = ni
+			}
+			inf.SetClient(client)
+			after = 0
+			use = func(int) { inf.GetMetric(ctx) }
+			shutdown = func() {
+				time.Sleep(time.Duration(users) * time.Millisecond)
+				inf.Shutdown(ctx)
+				close(gate)
+			}
 		case "crdt":
 			r := fakes.NewCRDTReplica(gen.PeerKeys[3], func(c *crdt.Config) {
 				c.ClusterName = fmt.Sprintf("verif-c18-%d-%d", os.Getpid(), caseN)
